@@ -630,3 +630,14 @@ def desugar_yield_from(fn):
     new = clone(fn)
     new.body = conv(new.body)
     return _set_parents(new) if changed else fn
+
+
+def code(node):
+    """Source text of a function / class node WITHOUT docstrings (its own and those of nested definitions): text tests on a
+    function must not be satisfied by a code example in its documentation."""
+    new = clone(node)
+    for n in ast.walk(new):
+        if isinstance(n, (ast.FunctionDef, ast.AsyncFunctionDef, ast.ClassDef, ast.Module)) and n.body \
+                and isinstance(n.body[0], ast.Expr) and isinstance(n.body[0].value, ast.Constant) and isinstance(n.body[0].value.value, str):
+            n.body = n.body[1:] or [ast.Pass()]
+    return ast.unparse(new)
